@@ -422,21 +422,21 @@
         }
     }
 //@}
-//@before 1 let child_idx = base.get() ^ u32::from(c);{
+//@loopbody 3{
+    // snapshots at the start of the body, all reasoning at its end: the placement of the hooks does not depend on the order of
+    // the statements in between
     let ghost rem = it3.snapshot@.remaining();
     let ghost j0 = it3.index@ as int;
     let ghost st_before = stack@;
     let ghost h_before = helper;
     let ghost states_before = self.states@;
     let ghost map_before = state_id_map@;
+//@}
+//@loopend 3{
     proof {
         assert(edges.contains_key(c) && edges[c] == child_id);
         lemma_iter_keys_distinct(edges, rem);
         assert(*rem[j0].0 == c);
-    }
-//@}
-//@after 1 stack.push(child_id);{
-    proof {
         assert(stack@ == st_before.push(child_id));
         assert(stack@[stack@.len() - 1] == child_id);
         assert forall|x: u32| st_before.contains(x) implies stack@.contains(x) by {
